@@ -74,7 +74,7 @@ fn obs_json(s: &mut sys::Sys) -> Value {
 fn entity_of(op: &str) -> Vec<String> {
     let w: Vec<&str> = op.split_whitespace().collect();
     match w.as_slice() {
-        ["ca", a] | ["roa", a, ..] | ["aspa", a, ..] | ["bgpsec", a, ..] | ["rollinit", a] | ["rollactivate", a]
+        ["ca", a] | ["cainit", a] | ["roa", a, ..] | ["aspa", a, ..] | ["bgpsec", a, ..] | ["rollinit", a] | ["rollactivate", a]
         | ["updateid", a] | ["reposync", a] => vec![a.to_string()],
         // deleting a CA is not an event-sourced command: no (log, state) pair to judge
         ["cadelete", _] => vec![],
@@ -155,6 +155,10 @@ fn dry_run(m: &Main, domain: &str, op: &str, with_pump: bool) -> Dry {
         fs.iter().map(|(k, p, _)| format!("{k}:{}", canon_path(&p.display().to_string().replace(&root, "")))).collect()
     };
     let ret = o.get("ret").and_then(|r| r.as_str()).map(|s| s.to_string()).unwrap_or_default();
+    // the twin goes through a restart as well, so that start-up work is the same on both sides
+    let scratch = s.into_scratch();
+    let mut s = sys::Sys::open(scratch, true, "dry-restart-disk", &m.cfg, false);
+    let _ = s.startup();
     s.exec("pumpall");
     let fin = obs_json(&mut s);
     Dry { muts, twin: semantic(&fin), ret, ents }
@@ -226,6 +230,7 @@ fn fault_line(m: &mut Main, mode: &str, domain: &str, which: &str, op: &str, out
             problems = loads(&s);
             at_cut = o1.clone();
         }
+        let late_restart = !restarted;
         tick("restarted");
         // per entity: how many of the op's commands are in the log, and where state and object set stand
         let mut ent_rep = Map::new();
@@ -254,6 +259,15 @@ fn fault_line(m: &mut Main, mode: &str, domain: &str, which: &str, op: &str, out
         }
         s.exec("pumpall");
         tick("resubmitted");
+        if late_restart {
+            // same start-up work as the twin
+            let scratch = s.into_scratch();
+            let mut s2 = sys::Sys::open(scratch, true, "late-restart-disk", &m.cfg, false);
+            problems.extend(loads(&s2));
+            let _ = s2.startup();
+            s2.exec("pumpall");
+            s = s2;
+        }
         let fin = semantic(&obs_json(&mut s));
         let same = fin == dry.twin;
         let diff = if same { Value::Null } else { json!(first_diff(&dry.twin, &fin, "")) };
